@@ -25,6 +25,9 @@
 //!   with `max` concurrent streams allowed the following open_*_wait must succeed
 //!   and a last stream must carry `len2` bytes.
 //!
+//! kind 8: `8 readers dlen`: several tasks parked in recv_datagram() on clones of one connection,
+//!   then as many datagrams queued back to back by the peer: each reader must get one.
+//!
 //! Every result ends with the compio_quic::verif log (waker-table snapshots).
 use std::{
     cell::{Cell, RefCell},
@@ -841,6 +844,79 @@ fn run_dgram(c: &mut Case) -> Result<Vec<u64>, BadCase> {
 }
 
 // ---------------------------------------------------------------------------
+// kind 8: `8 readers dlen`: `readers` tasks (distinct wakers) are parked in recv_datagram() on
+// clones of one connection; the peer then queues as many datagrams back to back, so that they
+// arrive before the first one is consumed: every parked reader must get one.
+// result: `0 verdict readers completed intact log`
+
+fn run_dgram_readers(c: &mut Case) -> Result<Vec<u64>, BadCase> {
+    let readers = c.take()? as usize;
+    let dlen = c.take()? as usize;
+    if readers == 0 || readers > 8 || dlen > 1100 {
+        return Err(BadCase);
+    }
+    let out = Rc::new(Cell::new((0u64, 0u64)));
+    let rt = compio_runtime::Runtime::new().unwrap();
+    verif::start();
+    let o = out.clone();
+    let verdict = rt.block_on(async move {
+        watchdog(IDLE, async move {
+            let Some(Pair { server, client, sconn, cconn }) = establish(TransportConfig::default()).await else {
+                return 1u64;
+            };
+            let mk = move |j: usize| {
+                let mut d = vec![j as u8];
+                d.extend((0..dlen).map(|i| (i * 7 + j) as u8));
+                d
+            };
+            let done = Rc::new(Cell::new(0u64));
+            let intact = Rc::new(Cell::new(0u64));
+            for _ in 0..readers {
+                let (sconn, done, intact) = (sconn.clone(), done.clone(), intact.clone());
+                compio_runtime::spawn(async move {
+                    if let Ok(d) = sconn.recv_datagram().await {
+                        bump();
+                        let d = d.to_vec();
+                        if !d.is_empty() && (d[0] as usize) < readers && d == mk(d[0] as usize) {
+                            intact.set(intact.get() + 1);
+                        }
+                        done.set(done.get() + 1);
+                    }
+                })
+                .detach();
+            }
+            // let every reader park
+            for _ in 0..4 {
+                sleep(Duration::from_millis(2)).await;
+            }
+            for j in 0..readers {
+                let _ = cconn.send_datagram(Bytes::from(mk(j)));
+            }
+            for _ in 0..600 {
+                if done.get() as usize >= readers {
+                    break;
+                }
+                sleep(Duration::from_millis(5)).await;
+            }
+            o.set((done.get(), intact.get()));
+            cconn.close(VarInt::from_u32(0), b"");
+            drop(sconn);
+            drop(cconn);
+            let _ = futures_util::join!(client.shutdown(), server.shutdown());
+            0
+        })
+        .await
+        .unwrap_or(3)
+    });
+    drop(rt);
+    let log = verif::take();
+    let (a, b) = out.get();
+    let mut res = vec![0, verdict, readers as u64, a, b];
+    push_log(&mut res, &log);
+    Ok(res)
+}
+
+// ---------------------------------------------------------------------------
 // kind 6: `6 len hdr mode wchunk pre_cap delay`
 // result: `0 verdict hdr_ok returned expected rest_ok log`
 
@@ -1061,6 +1137,7 @@ fn run(case: &[u64]) -> Result<Vec<u64>, BadCase> {
         5 => run_dgram(&mut c),
         6 => run_read_to_end(&mut c),
         7 => run_drop_stopped(&mut c),
+        8 => run_dgram_readers(&mut c),
         _ => Err(BadCase),
     }
 }
